@@ -555,13 +555,15 @@ func firstFrame(st string) string {
 	return ""
 }
 
-func (w *worker) doFaults(s Spec) bool {
+func (w *worker) doFaults(s Spec) bool { return w.doFaultKinds(s, faultInterrupt, faultOverflow) }
+
+func (w *worker) doFaultKinds(s Spec, from, to int) bool {
 	p, ok := s.Build()
 	if !ok {
 		return false
 	}
 	src := p.Print()
-	for kind := faultInterrupt; kind <= faultOverflow; kind++ {
+	for kind := from; kind <= to; kind++ {
 		for k := 1; ; k++ {
 			sig, what, c, fired := checkFault(s, p, src, kind, k, w.nativeMk)
 			if !fired {
@@ -703,7 +705,7 @@ func run(r *core.Run) {
 		case "distinct":
 			ok = runDepth(r, bounds, sp, name, false, true)
 		case "faults":
-			ok = runFaults(r, bounds, sp, name)
+			ok = runFaults(r, bounds, sp, name, r.Quick() && st.d == 2)
 		case "cold":
 			ok = runCold(r, bounds, sp, name)
 		}
@@ -726,7 +728,7 @@ func runDepth(r *core.Run, bounds map[string]interface{}, sp space, alpha string
 		key = "differential, one construct of each kind per path"
 	}
 	counts := make([]int64, r.Workers)
-	ok := r.Parallel(sp.total, 2048, func(wk int, lo, hi int64) {
+	ok := r.Parallel(sp.total, 512, func(wk int, lo, hi int64) {
 		w := &worker{r: r, nativeMk: nativeMk}
 		for rank := lo; rank < hi; rank++ {
 			s := sp.spec(rank)
@@ -749,14 +751,24 @@ func runDepth(r *core.Run, bounds map[string]interface{}, sp space, alpha string
 	return true
 }
 
-func runFaults(r *core.Run, bounds map[string]interface{}, sp space, alpha string) bool {
+// runFaults: reduced == true runs only the two informative combinations (stack overflow with JS iterators,
+// interrupt with Go-native iterators) instead of all four.
+func runFaults(r *core.Run, bounds map[string]interface{}, sp space, alpha string, reduced bool) bool {
 	key := "fault injection (interrupt, stack overflow at every probe; JS and Go-native iterators)"
-	ok := r.Parallel(sp.total, 512, func(wk int, lo, hi int64) {
+	note := ""
+	if reduced {
+		note = "; at this depth only overflow x JS iterators and interrupt x Go-native iterators"
+	}
+	ok := r.Parallel(sp.total, 64, func(wk int, lo, hi int64) {
 		wj := &worker{r: r}
 		wn := &worker{r: r, nativeMk: true}
 		for rank := lo; rank < hi; rank++ {
 			s := sp.spec(rank)
-			if wj.doFaults(s) {
+			if reduced {
+				if wj.doFaultKinds(s, faultOverflow, faultOverflow) {
+					wn.doFaultKinds(s, faultInterrupt, faultInterrupt)
+				}
+			} else if wj.doFaults(s) {
 				wn.doFaults(s)
 			}
 		}
@@ -765,13 +777,13 @@ func runFaults(r *core.Run, bounds map[string]interface{}, sp space, alpha strin
 		bounds[key] = fmt.Sprintf("%v; depth %d (%s alphabet) cut by deadline", bounds[key], sp.d, alpha)
 		return false
 	}
-	bounds[key] = fmt.Sprintf("depth<=%d complete (%s alphabet of %d frames)", sp.d, alpha, len(sp.alpha))
+	bounds[key] = fmt.Sprintf("depth<=%d complete (%s alphabet of %d frames%s)", sp.d, alpha, len(sp.alpha), note)
 	return true
 }
 
 func runCold(r *core.Run, bounds map[string]interface{}, sp space, alpha string) bool {
 	key := "differential on brand-new runtimes (initial stack capacities; paths that close an iterator/generator)"
-	ok := r.Parallel(sp.total, 512, func(wk int, lo, hi int64) {
+	ok := r.Parallel(sp.total, 256, func(wk int, lo, hi int64) {
 		w := &worker{r: r}
 		for rank := lo; rank < hi; rank++ {
 			if s := sp.spec(rank); s.closes() {
